@@ -231,7 +231,7 @@ PROPS['C01'] = dict(
 PROPS['C02'] = dict(
     lean=['QscProofs.C02', 'QscProofs.C20Newton'], theorems=thms('QscProofs.C02') + ['Hand.Newton.newton_sound', 'Hand.Newton.iter_best_decreases'],
     gen=['Sigma'], corr=corr_merge(corr_generated(['Sigma'], orders=('r1',)), corr_hand_kernels(['newton'])),
-    oracle=lambda ctx: (lambda st: (oracles.oracle_C02(ctx.all_orders(), st), oracles.oracle_C02_wild(st, ctx.seed, 120 if ctx.thorough else 30), oracles.oracle_newton(st, ctx.seed, 64 if ctx.thorough else 24), oracles.oracle_C02_shooting(ctx.objects('r1'), st) if ctx.thorough else None, st.out())[-1])(oracles.Stats()),
+    oracle=lambda ctx: (lambda st: (oracles.oracle_C02(ctx.all_orders(), st), oracles.oracle_C02_wild(st, ctx.seed, 120 if ctx.thorough else 30), oracles.oracle_newton(st, ctx.seed, 64 if ctx.thorough else 24), oracles.oracle_C02_shooting(ctx.objects('r1'), st) if ctx.thorough else None, oracles.oracle_history(ctx.objects('r1')[:3], st, seed=ctx.seed), st.out())[-1])(oracles.Stats()),
     rule=RULE, partial=['agreement of iota with an independent shooting solution of the continuous ODE as nphi grows is analysis: decided numerically (thorough tier), not proved',
                         'convergence of Newton on a given input is not proved: the theorem says a non-converged solve is never silent'])
 
